@@ -20,12 +20,19 @@ Definition cobs_eqb (a b : cobs) : bool :=
   end.
 
 Definition cphase_eqb (a b : cphase) : bool :=
-  match a, b with PhSetGet, PhSetGet | PhSetCommit, PhSetCommit | PhRaceGet, PhRaceGet | PhRacePut, PhRacePut => true | _, _ => false end.
+  match a, b with PhSetGet, PhSetGet | PhSetCommit, PhSetCommit | PhRaceGet, PhRaceGet | PhRacePut, PhRacePut
+  | PhReadCheck, PhReadCheck | PhReadScan, PhReadScan => true | _, _ => false end.
 
 (* a thread label must name a live thread, parked at the observed engine call *)
 Definition label_ok (s : xstate) (op : cop) : bool :=
   match op with
-  | CThread i ph => match find_thr i (x_thr s) with Some t => cphase_eqb (tphase t) ph | None => false end
+  | CThread i ph => match find_thr i (x_thr s) with
+                    | Some (TReadGet _) | Some (TReadScan _) => false
+                    | Some t => cphase_eqb (tphase t) ph
+                    | None => false
+                    end
+  | CReadCheck i rev => match find_thr i (x_thr s) with Some (TReadGet r) => r =? rev | _ => false end
+  | CReadScan i rev => match find_thr i (x_thr s) with Some (TReadScan r) => r =? rev | _ => false end
   | _ => true
   end.
 
@@ -79,9 +86,31 @@ Definition c08_step_ok (cur floor : N) (st : c08_step) : bool :=
      | None, _ => true
      end.
 
-(* verdict of one step: None fine, Some 0 = violation *)
+(* a range read in two steps. The check: below the floor it must end refused; passing it below the floor is a
+   violation. The scan: see c08_step_verdict *)
+Definition read_check_ok (floor : N) (st : c08_step) : bool :=
+  match s8_op st, s8_obs st with
+  | CReadCheck _ rev, ORead res => if rev <? floor then rres_eqb res RErr else true
+  | CReadCheck _ rev, OWrite => negb (rev <? floor)
+  | CReadCheck _ _, _ => false
+  | CReadScan _ _, ORead _ => true
+  | CReadScan _ _, _ => false
+  | _, _ => true
+  end.
+
+(* the signature of finding C08-F2: the scan of a read that passed its check answers with data although the floor
+   has been raised above the read's revision in the meantime (its iterators are opened after the check) *)
+Definition f2_signature (floor : N) (st : c08_step) : bool :=
+  match s8_op st, s8_obs st with
+  | CReadScan _ rev, ORead RData => rev <? floor
+  | _, _ => false
+  end.
+
+(* verdict of one step: None fine, Some 0 = violation, Some 2 = the signature of C08-F2 *)
 Definition c08_step_verdict (cur floor : N) (st : c08_step) : option N :=
-  if c08_step_ok cur floor st then None else Some 0.
+  if c08_step_ok cur floor st && read_check_ok floor st
+  then (if f2_signature floor st then Some 2 else None)
+  else Some 0.
 
 Definition worse8 (a b : option N) : option N :=
   match a, b with
